@@ -105,6 +105,12 @@ fn f64_bits_strategy() -> BoxedStrategy<u64> {
             let x = m as f64 / 10f64.powi(k as i32);
             (if neg { -x } else { x }).to_bits()
         }),
+        // powers of two and their neighbours in f64 (integer conversions saturate or lose bits there:
+        // 2^24, 2^31, 2^32, 2^53, 2^63, 2^64 ...), with either sign
+        2 => (any::<bool>(), 0u32..130, -2i64..=2).prop_map(|(neg, k, ulps)| {
+            let x = f64::from_bits((2f64.powi(k as i32).to_bits() as i64 + ulps) as u64);
+            (if neg { -x } else { x }).to_bits()
+        }),
         1 => prop_oneof![
             Just(f64::INFINITY.to_bits()),
             Just(f64::NEG_INFINITY.to_bits()),
